@@ -37,6 +37,23 @@ def recv_ty(n):
     return r.get("aty") or r.get("ty") or ""
 
 
+def derived_hash_fields(F, reach):
+    """derive(Serialize) code that hands a std hash container straight to the serializer:
+    [(fn path, field name, node)] for `serialize_field(_, "name", &self.field)` with a HashMap/HashSet typed field"""
+    out = []
+    for p, f in sorted(F.fns.items()):
+        if "hir" not in f or not (f.get("exp") or "").startswith("Derive:Serialize") or p.split("::")[-1] != "serialize":
+            continue
+        for n in walk(f["hir"]["value"], pats=False):
+            if n.get("k") == "Call" and short(callee_of(n) or declared_callee(n) or "") in ("serialize_field", "serialize_newtype_struct", "serialize_newtype_variant", "serialize_element") and n["args"]:
+                a = n["args"][-1]
+                t = strip_ty(a.get("ty") or "")
+                if HASH_TY.match(t):
+                    name = lit_value(n["args"][1]) if len(n["args"]) >= 3 else "?"
+                    out.append((p, name, n))
+    return out
+
+
 def sources(F, reach, extra_fns=(), iter_types=()):
     """[(root fn, kind, node, parent map)]: every hash-ordered iteration in reachable bodies"""
     from .p_parse import parent_map
@@ -51,6 +68,8 @@ def sources(F, reach, extra_fns=(), iter_types=()):
         for n in walk(f["hir"]["value"], pats=False):
             if n.get("k") == "MethodCall" and n["name"] in ITER_METHODS and (is_hash_ty(recv_ty(n)) or is_hash_ty(n["recv"].get("ty"))):
                 out.append((p, "method", n, pm))
+            elif n.get("k") == "MethodCall" and n["name"] == "serialize" and HASH_TY.match(strip_ty(recv_ty(n)) or strip_ty(n["recv"].get("ty"))):
+                out.append((p, "serialize", n, pm))
             elif n.get("k") in ("MethodCall", "Call") and callee_of(n) in extra_fns:
                 out.append((p, "wrapper", n, pm))
         for lp in loops.values():
@@ -373,6 +392,8 @@ class G2:
         f = self.F.fns[p]
         if kind == "for":
             return self.loop_body(f, n["body"], pat_names(n["pat"]) if n["pat"] else set())
+        if kind == "serialize":
+            return ("UNSAFE", "a std hash container is handed to the serializer, which writes its elements in hash order", n)
         state = "iter"
         if kind == "wrapper" and SEQLIKE.match(strip_ty(n.get("ty") or "")):
             state = "seq"
